@@ -744,7 +744,6 @@ func c11ReadBufferOwned(c *Ctx) {
 	c.Check("C11.O10", funcKey(fn)+":handed-over-bytes-written", fn.Pos(), written, "the bytes received with the connection are written into its read buffer", "newServerConnection no longer writes the bytes handed over with a transferred connection into its read buffer: the part of a request the old process had already read is lost")
 }
 
-
 // closesRawListener: fn (or a function of the package it calls, two levels) closes the listening socket (rawl / packetConn).
 func closesRawListener(fn *ssa.Function, d int) bool {
 	if d > 2 {
